@@ -85,3 +85,31 @@ static_assert(!unifex::is_nothrow_receiver_of_v<throwing_member_receiver, int>,
 static_assert(!unifex::is_nothrow_receiver_of_v<throwing_tag_receiver, int>,
               "W-NOEXCEPT is_nothrow_receiver_of_v must be false for a receiver whose tag_invoke set_value can throw");
 }  // namespace vp
+
+// ---- the dispatch layer itself: is_nothrow_tag_invocable_v and the connect CPO report a throwing customisation as throwing
+// (every adaptor's noexcept specification and every "try { connect } catch -> set_error" decision is computed from them).
+#include <unifex/tag_invoke.hpp>
+namespace vp {
+inline constexpr struct probe_cpo_t {
+  template <typename T>
+  auto operator()(T&& t) const noexcept(unifex::is_nothrow_tag_invocable_v<probe_cpo_t, T>)
+      -> unifex::tag_invoke_result_t<probe_cpo_t, T> { return unifex::tag_invoke(*this, (T&&)t); }
+} probe_cpo{};
+struct throwing_custom { friend int tag_invoke(probe_cpo_t, throwing_custom) noexcept(false) { return 0; } };
+struct solid_custom { friend int tag_invoke(probe_cpo_t, solid_custom) noexcept { return 0; } };
+static_assert(unifex::is_tag_invocable_v<probe_cpo_t, throwing_custom> && !unifex::is_nothrow_tag_invocable_v<probe_cpo_t, throwing_custom>,
+              "W-NOEXCEPT is_nothrow_tag_invocable_v must be false for a tag_invoke customisation declared noexcept(false)");
+static_assert(!noexcept(probe_cpo(throwing_custom{})) && noexcept(probe_cpo(solid_custom{})),
+              "W-NOEXCEPT a CPO whose noexcept is computed from is_nothrow_tag_invocable_v reports the customisation's own noexcept");
+struct member_connect_sender {
+  template <template <typename...> class V, template <typename...> class T> using value_types = V<T<>>;
+  template <template <typename...> class V> using error_types = V<std::exception_ptr>;
+  static constexpr bool sends_done = false;
+  struct op { void start() noexcept {} };
+  template <typename R> op connect(R&&) && noexcept(false);
+};
+static_assert(!unifex::is_nothrow_connectable_v<member_connect_sender, solid_receiver>,
+              "W-NOEXCEPT connect(s, r) dispatching to a member connect that can throw must not be noexcept");
+static_assert(!unifex::is_nothrow_connectable_v<throwing_bulk_source, solid_receiver>,
+              "W-NOEXCEPT connect(s, r) dispatching to a tag_invoke connect that can throw must not be noexcept");
+}  // namespace vp
